@@ -87,6 +87,9 @@ def build_and_audit(pid, tier="quick"):
         res["translate_ok"] = rc == 0
         if rc != 0:
             return res
+        rc2, out2 = sh(["/venv/bin/python", os.path.join(VERIF, "tools", "translate_code.py")])
+        res["log"] += out2
+        res["code_translate_ok"] = rc2 == 0
         facts = json.load(open(os.path.join(WORK, "facts.json")))
         res["shape_changed"] = facts.get("shape_changed", [])
         res["notes"] = facts.get("notes", [])
@@ -142,6 +145,35 @@ def build_and_audit(pid, tier="quick"):
                     res["bad_axioms"].append((t, extra))
             if rc != 0 and not res["missing"]:
                 res["missing"] = ["audit-run-failed"]
+        # code tie: the functions as written (Generated/Code.lean) compute the hand model — extra obligations, see code_tie.json
+        tie = json.load(open(os.path.join(VERIF, "tools", "code_tie.json"))).get(pid)
+        res["code_tie"] = None
+        if tie:
+            ct = dict(theorems=tie["theorems"], proved=[], broken=[], untranslatable={})
+            try:
+                ct["untranslatable"] = json.load(open(os.path.join(WORK, "code_facts.json"))).get("untranslatable", {})
+            except OSError:
+                pass
+            rc, out = sh(["lake", "build"] + tie["modules"], cwd=LEAN, timeout=3000)
+            if rc == 0:
+                aud = os.path.join(WORK, f"AuditTie_{pid}.lean")
+                with open(aud, "w") as f:
+                    for m in tie["modules"]:
+                        f.write(f"import {m}\n")
+                    for t in tie["theorems"]:
+                        f.write(f"#print axioms {t}\n")
+                rc, out = sh(["lake", "env", "lean", aud], cwd=LEAN)
+                flat = out.replace("\n", " ")
+                for t in tie["theorems"]:
+                    m = re.search(r"'" + re.escape(t) + r"' (depends on axioms: \[([^\]]*)\]|does not depend on any axioms)", flat)
+                    if m and all(a.strip() in ALLOWED_AXIOMS for a in (m.group(2) or "").split(",") if a.strip()):
+                        ct["proved"].append(t)
+                    else:
+                        ct["broken"].append(t)
+            else:
+                ct["broken"] = list(tie["theorems"])
+                ct["log"] = out[-1500:]
+            res["code_tie"] = ct
         res["forbidden"] = forbidden_tokens()
         # thorough tier: independent re-check of the compiled property modules
         res["leanchecker"] = None
@@ -197,6 +229,11 @@ def main():
             return 2
     facts = json.load(open(os.path.join(WORK, "facts.json")))
     ctx = props.Ctx(pid=pid, tier=tier, seed=seed, facts=facts, build=b)
+    ct = b.get("code_tie")
+    if ct and ct["broken"]:
+        log(f"code tie: {len(ct['broken'])} equivalence theorem(s) between the code as written and the model no longer check "
+            f"({', '.join(ct['broken'])}); not an alarm by itself — the correspondence check runs at the thorough budget")
+        ctx.escalated = True
     try:
         result = props.CHECKS[pid](ctx)
     except Exception:
@@ -280,6 +317,8 @@ def main():
         correspondence_diffs=len(result.diffs),
         leanchecker=b.get("leanchecker"),
         shape_changed=b["shape_changed"],
+        code_tie=(dict(theorems=len(b["code_tie"]["theorems"]), proved=b["code_tie"]["proved"], broken=b["code_tie"]["broken"],
+                       untranslatable=b["code_tie"]["untranslatable"]) if b.get("code_tie") else None),
     ))
     ev = dict(property_id=pid, tier=tier, seed=seed, level="proof", coverage=cov,
               assumptions=result.assumptions, wall_s=round(time.time() - t0, 2),
